@@ -377,7 +377,14 @@ func runC20History(t *testing.T, res *common.Result, label string, T time.Durati
 				synctest.Wait()
 				tr = append(tr, e)
 			case "create":
-				h := sd.do("POST", "/session", nil, "")
+				// every third create carries the cookie of the latest session (a client that always logs in
+				// first, a retry): whatever cookie the 201 hands out is valid for a full timeout from now
+				var carried *string
+				if len(st.sess) > 0 && len(tr)%3 == 0 {
+					carried = &st.sess[len(st.sess)-1].cookie
+					res.Count("create:with-a-session-cookie")
+				}
+				h := sd.do("POST", "/session", carried, "")
 				e.Status, e.Body = h.Code, strings.TrimSpace(h.Body)
 				tr = append(tr, e)
 				if h.Panic != "" {
@@ -392,7 +399,15 @@ func runC20History(t *testing.T, res *common.Result, label string, T time.Durati
 					find("rest:session:cookie-not-refreshed", fmt.Sprintf("the cookie of a new session expires at %v; required now+timeout = %v", h.Cookie.Expires, want))
 					return
 				}
-				st.sess = append(st.sess, &c20sess{cookie: h.Cookie.Value, lsID: sd.svc.lastTagged(), last: st.now, holds: map[string]string{}})
+				reused := false
+				for _, x := range st.sess {
+					if x.cookie == h.Cookie.Value { // the gateway handed the same session out again: it was told "valid from now"
+						x.last, reused = st.now, true
+					}
+				}
+				if !reused {
+					st.sess = append(st.sess, &c20sess{cookie: h.Cookie.Value, lsID: sd.svc.lastTagged(), last: st.now, holds: map[string]string{}})
+				}
 			case "lock", "unlock", "renew", "delete":
 				var ck *string
 				var s *c20sess
